@@ -65,7 +65,13 @@ func c02Crash(j *orch.Job, r *orch.Result) error {
 	if err := copyFile(filepath.Join(p.Dir, fmt.Sprintf("ckpt-%d.db", p.Block-1)), p.DBPath+".v4"); err != nil {
 		return err
 	}
-	n, err := harness.StartNode(harness.NodeConfig{DBPath: p.DBPath, Wrap: true, WAL: p.WAL, Sync: "FULL"}, c)
+	// every other crash point runs with a page cache of a few pages: dirty pages of the open transaction then reach
+	// the database file long before COMMIT, and only the journal on disk can undo them after a kill
+	cache := 0
+	if p.K%2 == 0 && !p.Fail {
+		cache = 8
+	}
+	n, err := harness.StartNode(harness.NodeConfig{DBPath: p.DBPath, Wrap: true, WAL: p.WAL, Sync: "FULL", CachePages: cache}, c)
 	if err != nil {
 		return err
 	}
